@@ -17,10 +17,12 @@ pub mod c09;
 pub mod c10;
 pub mod c11;
 pub mod c12;
+pub mod c13;
 pub mod c15;
 pub mod c16;
+pub mod c17;
 
-pub const ALL: &[&str] = &["C01", "C02", "C03", "C04", "C05", "C06", "C07", "C08", "C09", "C10", "C11", "C12", "C15", "C16"];
+pub const ALL: &[&str] = &["C01", "C02", "C03", "C04", "C05", "C06", "C07", "C08", "C09", "C10", "C11", "C12", "C13", "C15", "C16", "C17"];
 
 pub fn run(ctx: &Ctx) -> i32 {
     match ctx.prop.as_str() {
@@ -36,8 +38,10 @@ pub fn run(ctx: &Ctx) -> i32 {
         "C10" => c10::run(ctx),
         "C11" => c11::run(ctx),
         "C12" => c12::run(ctx),
+        "C13" => c13::run(ctx),
         "C15" => c15::run(ctx),
         "C16" => c16::run(ctx),
+        "C17" => c17::run(ctx),
         other => {
             eprintln!("unknown property {}", other);
             2
@@ -59,8 +63,10 @@ pub fn replay_case(prop: &str, suite: &str, case: &Value) -> Option<Verdict> {
         "C10" => c10::replay(suite, case),
         "C11" => c11::replay(suite, case),
         "C12" => c12::replay(suite, case),
+        "C13" => c13::replay(suite, case),
         "C15" => c15::replay(suite, case),
         "C16" => c16::replay(suite, case),
+        "C17" => c17::replay(suite, case),
         _ => None,
     }
 }
